@@ -105,8 +105,8 @@ constexpr int MAXCYC = 2 * NEMIT + MAXREQ + 4;
 
 struct Emit { DateTime t; Int v; };
 struct Req { DateTime issued, when; };
-struct Run { DateTime t; Int a, b; bool a_mod, b_mod, sched_now, is_sched; DateTime next; };
-struct Probe { DateTime now; bool is_sched; DateTime next; };
+struct Run { DateTime t; Int a, b; bool a_mod, b_mod, sched_now, is_sched; DateTime next; int nreq_before; };
+struct Probe { DateTime now; bool is_sched; DateTime next; int nreq_before; };
 
 inline int g_n[2];               // emissions of source k (enumerated)
 inline Int g_off[2];             // first emission offset from start (symbolic, 0..OMAX)
@@ -155,7 +155,7 @@ inline void scenario_on_start(const NodeScheduler &s, DateTime now) {
     g_req[g_nreq++] = Req{now, now + TimeDelta{g_d0}};
 }
 inline void scenario_on_eval(const NodeScheduler &s, DateTime now, Int a, bool a_mod, Int b, bool b_mod) {
-    if (g_nrun < MAXRUN) g_run[g_nrun] = Run{now, a, b, a_mod, b_mod, s.is_scheduled_now(), s.is_scheduled(), s.next_scheduled_time()}; else g_overflow = true;
+    if (g_nrun < MAXRUN) g_run[g_nrun] = Run{now, a, b, a_mod, b_mod, s.is_scheduled_now(), s.is_scheduled(), s.next_scheduled_time(), g_nreq}; else g_overflow = true;
     if (g_nrun == 0 && g_rd > 0) {
         s.schedule(TimeDelta{g_rd});
         g_req[g_nreq++] = Req{now, now + TimeDelta{g_rd}};
@@ -172,7 +172,7 @@ struct ScenarioObserver : LifecycleObserver {
         if (!g.is_root() || g_sched_state == nullptr) return;
         DateTime now = g.evaluation_time();
         NodeScheduler q{*g_sched_state, nullptr, 0, now};
-        if (g_nprobe < MAXCYC) g_probe[g_nprobe++] = Probe{now, q.is_scheduled(), q.next_scheduled_time()}; else g_overflow = true;
+        if (g_nprobe < MAXCYC) g_probe[g_nprobe++] = Probe{now, q.is_scheduled(), q.next_scheduled_time(), g_nreq}; else g_overflow = true;
     }
 };
 
